@@ -170,6 +170,7 @@ def handle : Handler := fun op inp impl => do
     let prog := progressing store obj.ns obj.name
     let baseTags := [version, "op:" ++ opS, decisionTag impl] ++
       (if o = .update then [if prog then "phase:immutable" else "phase:mutable"] else []) ++
+      (if o = .update && prog && acc then ["admitted-while-progressing"] else []) ++
       (if o = .other then ["trivial"] else []) ++ regionTags version obj old store (o = .update)
     if version = "v1alpha1" then
       let a := obj.toA
